@@ -243,6 +243,10 @@ func VerifH_C12_genericCancel() {
 		for range eng.Results() {
 		}
 	}()
+	if ndBool("cancelBeforeStart") {
+		cancel() // Ctrl-C before the first probe
+		verifCover("pre-cancelled")
+	}
 	done, errc := eng.Start(ctx, &Range{})
 	go func() {
 		for range errc {
